@@ -21,7 +21,7 @@ import (
 
 // C06 — Compile is total: no panic, crash or hang; exactly one of (expr, error).
 
-const ruleC06 = "rapid: valid expression text from all fragments (incl. unconstrained ones) or token soup, then 0-3 mutations, byte-level (delete / duplicate a range, flip a byte, insert a token from a dictionary) or token-level (delete / duplicate / swap lexical words of XPath tokens, quotes, brackets, NUL, invalid UTF-8, multi-byte names) x namespace configuration (Compile; CompileWithNS with nil, empty, binding and non-binding maps, and maps whose keys and values are no names at all: 'x:', a quote, '#', NUL, '(' ...). mixed: alternations of two constructs (predicate/function, predicate/arithmetic, parenthesis/union, sequence/predicate/function ...) at depths 2..198, whose compile cost must stay polynomial; two-phase: N completed sibling constructs followed by a construct nested N+250 deep (N up to 10^5 quick / 1.5*10^6 thorough) for 7 prefix x 5 nesting constructs; deep: every recursive construct of the grammar ('(', 'a[', 'f(', 'a/(', 'a/(b,', '-', 'a/', 'a//', '[1]', '1+', 'a|', 'or', '=', alternations of two) nested to depth 10^2..10^5 (10^6 for the constructs of at most four bytes per level), and the ten chain constructs at 10^3 and 10^5 terms inside each of 8 frames that make the builder reject the expression around them (unknown function, too many arguments, in a predicate, as a sibling), under an 8 MB maximum stack (quick) or ..3*10^6 (3*10^7) under the default 1 GB stack (thorough), closed and unclosed, each journalled before it runs so that a dying process is attributed. pumped segments: prefix + segment^n + suffix (n = 40; thorough 24, 40, 64, 150) for every segment of <= 3 chunks from 37 lexical chunks and small balanced constructs ('/', '(b,c)', '[b|c]', ' or ', 'not(' ...) in 5 frames, decided by an allocation budget (a Compile that passes 6*10^7 allocations is abandoned and reported) so that a cost that multiplies per repeated sibling is seen without waiting for the clock; short byte strings: every string of <= 3 bytes over 26 hostile bytes (UTF-8 lead/continuation bytes, BOM bytes, NUL, 0xFF, quotes, brackets) x 2 namespace configurations. thorough also: native go fuzzing of the same oracle. Oracle: Compile/CompileWithNS return exactly one of (non-nil expr, non-nil error); no panic escapes; the process survives; MustCompile returns a usable non-nil expression; a returned expression answers String() without panicking and can be used once (Select and Evaluate on a four-element document under a small operation budget) without a Go runtime error; every call returns within a generous wall-clock margin (re-tried once in isolation). Non-trivial: the input was mutated, or is soup, or is a depth case; distinct by input bytes + namespace configuration."
+const ruleC06 = "rapid: valid expression text from all fragments (incl. unconstrained ones) or token soup, then 0-3 mutations, byte-level (delete / duplicate a range, flip a byte, insert a token from a dictionary) or token-level (delete / duplicate / swap lexical words of XPath tokens, quotes, brackets, NUL, invalid UTF-8, multi-byte names) x namespace configuration (Compile; CompileWithNS with nil, empty, binding and non-binding maps, and maps whose keys and values are no names at all: 'x:', a quote, '#', NUL, '(' ...). mixed: alternations of two constructs (predicate/function, predicate/arithmetic, parenthesis/union, sequence/predicate/function ...) at depths 2..198, whose compile cost must stay polynomial, and replace() with every pair of 8 constant patterns x 14 constant replacement templates ('$', '$$', '$0', '$2', 'x$', '${' ...) in 3 positions; two-phase: N completed sibling constructs followed by a construct nested N+250 deep (N up to 10^5 quick / 1.5*10^6 thorough) for 7 prefix x 5 nesting constructs; deep: every recursive construct of the grammar ('(', 'a[', 'f(', 'a/(', 'a/(b,', '-', 'a/', 'a//', '[1]', '1+', 'a|', 'or', '=', alternations of two) nested to depth 10^2..10^5 (10^6 for the constructs of at most four bytes per level), and the ten chain constructs at 10^3 and 10^5 terms inside each of 8 frames that make the builder reject the expression around them (unknown function, too many arguments, in a predicate, as a sibling), under an 8 MB maximum stack (quick) or ..3*10^6 (3*10^7) under the default 1 GB stack (thorough), closed and unclosed, each journalled before it runs so that a dying process is attributed. pumped segments: prefix + segment^n + suffix (n = 40; thorough 24, 40, 64, 150) for every segment of <= 3 chunks from 37 lexical chunks and small balanced constructs ('/', '(b,c)', '[b|c]', ' or ', 'not(' ...) in 5 frames, decided by an allocation budget (a Compile that passes 6*10^7 allocations is abandoned and reported) so that a cost that multiplies per repeated sibling is seen without waiting for the clock; short byte strings: every string of <= 3 bytes over 26 hostile bytes (UTF-8 lead/continuation bytes, BOM bytes, NUL, 0xFF, quotes, brackets) x 2 namespace configurations. thorough also: native go fuzzing of the same oracle. Oracle: Compile/CompileWithNS return exactly one of (non-nil expr, non-nil error); no panic escapes; the process survives; MustCompile returns a usable non-nil expression; a returned expression answers String() without panicking and can be used once (Select and Evaluate on a four-element document under a small operation budget) without a Go runtime error; every call returns within a generous wall-clock margin (re-tried once in isolation). Non-trivial: the input was mutated, or is soup, or is a depth case; distinct by input bytes + namespace configuration."
 
 var (
 	uC06Rapid = harness.NewUnit("C06", "rapid-mutated-inputs", ruleC06)
@@ -534,6 +534,33 @@ func TestC06Mixed(t *testing.T) {
 				}
 				uC06Mixed.Case(harness.Hash64(c.name, fmt.Sprint(depth, closed)), true, []string{"construct:" + c.name, fmt.Sprintf("depth:%d", depth), res}, func() interface{} {
 					return map[string]interface{}{"construct": c.name, "depth": depth, "closed": closed, "input": clip(in), "result": res}
+				})
+			}
+		}
+	}
+	// regex calls with constant arguments: whatever Compile prepares ahead of time for a constant
+	// pattern or a constant replacement template, it prepares inside Compile
+	for _, pat := range []string{"a", "(a)", "(a)(b)", "[", "a|b", "", "(?:a)", "(a"} {
+		for _, rep := range []string{"$", "$$", "$0", "$1", "$2", "$x", "x$", "${1}", "${", "\\", "$1$", "", "US$ 1", "$10"} {
+			for _, form := range []string{"replace(., '%s', '%s')", "replace('a$b', '%s', '%s')", "//a[replace(@x, '%s', '%s') = '$']"} {
+				idx++
+				if idx%shards != shard {
+					continue
+				}
+				in := fmt.Sprintf(form, pat, rep)
+				l := &harness.Live{Property: "C06", Check: "C06/total", Expr: in, Params: map[string]interface{}{"input_b64": base64.StdEncoding.EncodeToString([]byte(in))}}
+				journal.Record(l.Save())
+				acc, f := checkCompileTotal(in, false, nil)
+				if f != nil {
+					harness.Report(t, uC06Mixed, l, f)
+				}
+				total++
+				res := "rejected"
+				if acc {
+					res = "accepted"
+				}
+				uC06Mixed.Case(harness.Hash64("regex-constants", in), true, []string{"construct:regex-constants", res}, func() interface{} {
+					return map[string]interface{}{"construct": "regex-constants", "input": in, "result": res}
 				})
 			}
 		}
